@@ -515,3 +515,43 @@ pub fn u_prefix_suffix2(m: usize) -> Universe {
     }
     Universe::from_words(&format!("U_ps2{{1,U+0663,x,e9,aa,aaa,bc}}x{{a,bc,x,my}} sets of <={m}"), w, m)
 }
+
+/// A handful of small sets in which MANY features meet (digits of two scripts, both cases, case partners of different
+/// length, repeated units, whitespace of two kinds, metacharacters, combining marks, astral characters, prefix
+/// relations). They are crossed with the FULL settings lattice, so that every combination of settings, however many
+/// flags it needs, meets inputs on which each of those flags does something.
+pub fn u_feature_rich() -> Universe {
+    let sets: Vec<Vec<&str>> = vec![
+        vec!["Aa1 1", "aa11  "],
+        vec!["abab", "ABAB", "x.y"],
+        vec!["\u{130}i 22", "ii 22"],
+        vec!["a\u{301}a\u{301} \u{e9}", "\u{c9}"],
+        vec!["\u{661}\u{661}a_", "11A-"],
+        vec!["ab ab ab", "ab ab"],
+        vec!["\u{1f4a9}\u{1f4a9} 1", "\u{1f4a9} 11"],
+        vec!["a.b", "a-b", "a b"],
+        vec!["AAaa", "aaAA", "Aa"],
+        vec!["\t1\t1", " 1 1"],
+        vec!["foo_bar", "foo-bar", "FOO bar"],
+        vec!["\u{df}", "SS", "ss"],
+        vec!["12:30", "1:5", "12:3"],
+        vec!["xyzxyz1", "xyz1", "Xyz"],
+    ];
+    let mut words: Vec<String> = vec![];
+    let mut out = vec![];
+    for s in sets {
+        let mut ids = vec![];
+        for w in s {
+            let i = match words.iter().position(|x| x == w) {
+                Some(i) => i,
+                None => {
+                    words.push(w.to_string());
+                    words.len() - 1
+                }
+            };
+            ids.push(i);
+        }
+        out.push(ids);
+    }
+    Universe { name: "U_rich: 14 small sets in which many features meet (two digit scripts, both cases, case partners of different length, repeats, two kinds of whitespace, metacharacters, marks, astral, prefixes)".to_string(), words, sets: out }
+}
